@@ -164,8 +164,30 @@ def _join(subs):
     return 'Union<' + ', '.join(sorted(subs)) + '>'
 
 
+def _union_members(inferred: str):
+    if not (inferred.startswith('Union<') and inferred.endswith('>')):
+        return None
+    out, depth, cur = [], 0, ''
+    for ch in inferred[6:-1]:
+        if ch == '<':
+            depth += 1
+        elif ch == '>':
+            depth -= 1
+        if ch == ',' and depth == 0:
+            out.append(cur.strip())
+            cur = ''
+        else:
+            cur += ch
+    out.append(cur.strip())
+    return out
+
+
 def matches(inferred: str, runtime: str) -> bool:
-    """inferred == runtime, where '?' in the runtime description (empty container) matches any type argument."""
+    """inferred == runtime, where '?' in the runtime description (empty container) matches any type argument;
+    an inferred Union admits the values of each of its members."""
+    members = _union_members(inferred)
+    if members is not None and not runtime.startswith('Union<'):
+        return any(matches(m, runtime) for m in members)
     if '|' in runtime and '<' not in runtime:
         return inferred in runtime.split('|')
     if '?' not in runtime:
@@ -174,7 +196,21 @@ def matches(inferred: str, runtime: str) -> bool:
     return re.fullmatch(pat, inferred) is not None
 
 
-def run_recorded(source: str, entries):
+def run_recorded(source: str, entries, extra=None):
+    import sys
+    import types
+    for name, src in (extra or {}).items():
+        m = types.ModuleType(name)
+        exec(compile(src, f'<{name}>', 'exec'), m.__dict__)
+        sys.modules[name] = m
+    try:
+        return _run_recorded(source, entries)
+    finally:
+        for name in (extra or {}):
+            sys.modules.pop(name, None)
+
+
+def _run_recorded(source: str, entries):
     tree = ast.parse(source)
     tree = Recorder().visit(tree)
     ast.fix_missing_locations(tree)
@@ -202,11 +238,11 @@ def run_recorded(source: str, entries):
 
 # ----------------------------------------------------------------------------- tranp side
 
-def inferred_table(source: str):
+def inferred_table(source: str, extra=None):
     """{(l, c, el, ec): [(node class, description)]} for every node with a span; raises the tranp error if the module is rejected."""
     from mc.tranp.session import Session
     from rogw.tranp.semantics.reflection.helper.naming import ClassShorthandNaming
-    s = Session({'prog': source})
+    s = Session(dict(extra or {}, prog=source))
     mod = s.load('prog')
     refl = s.reflections
     table = {}
@@ -218,6 +254,7 @@ def inferred_table(source: str):
         key = (bl, bc - 1, el, ec - 1)
         try:
             desc = ClassShorthandNaming.domain_name_for_debug(refl.type_of(node))
+            desc = re.sub(r'\b[A-Za-z_]\w*=', '', desc)   # 'IntList=list<int>': a type alias is described as alias=actual
         except Exception as e:  # noqa
             desc = f'<raises {type(e).__name__}>'
         table.setdefault(key, []).append((type(node).__name__, desc))
@@ -231,7 +268,7 @@ def judge(prog: pyprog.Program):
     from rogw.tranp.errors import Errors
     res = {'nodes': 0, 'reached': 0, 'unreached': 0, 'viol': [], 'descs': set(), 'rejected': 0}
     try:
-        table = inferred_table(prog.source)
+        table = inferred_table(prog.source, prog.extra)
         progs = [prog]
     except Errors.Error:
         # localise: per-function modules; what the transpiler rejects is C01's business, not C03's
@@ -239,7 +276,7 @@ def judge(prog: pyprog.Program):
         for name, _, _ in prog.functions:
             single = prog.only([name])
             try:
-                inferred_table(single.source)
+                inferred_table(single.source, single.extra)
                 progs.append(single)
             except Errors.Error:
                 res['rejected'] += 1
@@ -247,8 +284,8 @@ def judge(prog: pyprog.Program):
                 res['rejected'] += 1
         table = None
     for p in progs:
-        tbl = table if table is not None else inferred_table(p.source)
-        seen = run_recorded(p.source, p.entries)
+        tbl = table if table is not None else inferred_table(p.source, p.extra)
+        seen = run_recorded(p.source, p.entries, p.extra)
         lines = p.source.split('\n')
         # map line -> entry function tag
         owner = {}
@@ -359,13 +396,97 @@ def iterator_programs():
     yield pyprog.Program('iter0', ITER_PRELUDE.replace('from collections.abc import Callable', 'from collections.abc import Callable, Iterator'), fns, layer='iter')
 
 
+RECV_PRELUDE = pyprog.HEADER.replace('from enum import Enum', 'from enum import Enum\nfrom typing import TypeAlias') + '''
+class Row:
+	n: int
+
+	def __init__(self, n: int) -> None:
+		self.n = n
+
+IntList: TypeAlias = list[int]
+RowList: TypeAlias = list[Row]
+StrIntDict: TypeAlias = dict[str, int]
+
+class Holder:
+	items: list[int]
+	rows: list[Row]
+	table: dict[str, int]
+
+	def __init__(self, a: int) -> None:
+		self.items = [a, 2, 3]
+		self.rows = [Row(a), Row(2)]
+		self.table = {'k': a}
+
+'''
+
+
+def receiver_access_programs():
+    """Product: how a container is reached (plain, Optional, TypeAlias, attribute, nested) x how it is accessed."""
+    list_access = [('index0', '{E}', 'return {r}[0]'), ('index-var', '{E}', 'i = 1\nreturn {r}[i]'), ('slice', 'list[{E}]', 'return {r}[0:2]'), ('len', 'int', 'return len({r})'),
+                   ('for', 'int', 't = 0\nfor v in {r}:\n\tw = v\n\tt += 1\nreturn t'), ('comp', 'list[{E}]', 'return [v for v in {r}]'), ('copy', 'list[{E}]', 'return {r}.copy()'),
+                   ('pop', '{E}', 'return {r}.pop()'), ('local-alias', '{E}', 'ys = {r}\nreturn ys[0]'), ('index-attr', 'int', 'x = {r}[0]\nreturn 1')]
+    dict_access = [('index', 'int', "return {r}['k']"), ('for-keys', 'int', 't = 0\nfor k in {r}.keys():\n\tw = k\n\tt += 1\nreturn t'),
+                   ('for-items', 'int', 't = 0\nfor k, v in {r}.items():\n\tt += v\nreturn t'), ('values-comp', 'list[int]', 'return [v for v in {r}.values()]'), ('in', 'bool', "return 'k' in {r}"),
+                   ('local-alias', 'int', "d2 = {r}\nreturn d2['k']")]
+    recv = [('plain', 'list[int]', 'int', '[a, 2, 3]', 'r'), ('optional', 'list[int] | None', 'int', '[a, 2, 3]', 'r'), ('alias', 'IntList', 'int', '[a, 2, 3]', 'r'),
+            ('plain-obj', 'list[Row]', 'Row', '[Row(a), Row(2)]', 'r'), ('optional-obj', 'list[Row] | None', 'Row', '[Row(a), Row(2)]', 'r'), ('alias-obj', 'RowList', 'Row', '[Row(a), Row(2)]', 'r'),
+            ('attr', 'Holder', 'int', 'Holder(a)', 'r.items'), ('attr-obj', 'Holder', 'Row', 'Holder(a)', 'r.rows'), ('nested', 'list[list[int]]', 'int', '[[a, 2, 3], [4, 5]]', 'r[0]'),
+            ('optional-float', 'list[float] | None', 'float', '[1.5, 2.5, 3.5]', 'r')]
+    drecv = [('plain', 'dict[str, int]', "{'k': a}", 'r'), ('optional', 'dict[str, int] | None', "{'k': a}", 'r'), ('alias', 'StrIntDict', "{'k': a}", 'r'), ('attr', 'Holder', 'Holder(a)', 'r.table')]
+    fns = []
+
+    def add(tag, ptype, ret, body, arg):
+        k = len(fns) // 2
+        src_u = f'def u{k}(r: {ptype}) -> {ret}:\n' + '\n'.join('\t' + l for l in body.split('\n')) + '\n\n'
+        src_e = f'def e{k}(a: int) -> int:\n\tu{k}({arg})\n\treturn a\n\n'
+        fns.append((f'u{k}', src_u, Entry(f'u{k}', [('r', 'int')], vectors=[], tag=f'recv:{tag}')))
+        fns.append((f'e{k}', src_e, Entry(f'e{k}', [('a', 'int')], vectors=[(1,), (3,)], tag=f'recv:{tag}')))
+    for rname, ptype, elem, arg, rexpr in recv:
+        for aname, ret, body in list_access:
+            add(f'{rname}:{aname}', ptype, ret.format(E=elem), body.format(r=rexpr), arg)
+    for rname, ptype, arg, rexpr in drecv:
+        for aname, ret, body in dict_access:
+            add(f'dict-{rname}:{aname}', ptype, ret, body.format(r=rexpr), arg)
+    per = 40
+    for i in range(0, len(fns), per):
+        yield pyprog.Program(f'recv{i // per}', RECV_PRELUDE, fns[i:i + per], layer='recv')
+
+
+def same_shape_module(cls: str, ftype: str, fval: str) -> str:
+    return f'class {cls}:\n\tr: {ftype}\n\n\tdef __init__(self) -> None:\n\t\tself.r = {fval}\n\n\tdef area(self) -> {ftype}:\n\t\treturn self.r\n\ndef make_{cls.lower()}() -> {cls}:\n\treturn {cls}()\n'
+
+
+def cross_module_programs():
+    """Classes that sit at the same position of their (same-shaped) modules, used together in one function."""
+    extra = {'c03m_a': same_shape_module('Circle', 'int', '1'), 'c03m_b': same_shape_module('Label', 'str', "'s'"), 'c03m_c': same_shape_module('Plate', 'float', '1.5')}
+    prelude = pyprog.HEADER + 'from c03m_a import Circle, make_circle\nfrom c03m_b import Label, make_label\nfrom c03m_c import Plate, make_plate\n\nclass Local:\n\tr: bool\n\n\tdef __init__(self) -> None:\n\t\tself.r = True\n\n\tdef area(self) -> bool:\n\t\treturn self.r\n\n'
+    names = ['Circle', 'Label', 'Plate', 'Local']
+    fns = []
+
+    def add(tag, body):
+        k = len(fns)
+        src = f'def x{k}(p: bool) -> int:\n' + '\n'.join('\t' + l for l in body.split('\n')) + '\n\treturn 1\n\n'
+        fns.append((f'x{k}', src, Entry(f'x{k}', [('p', 'bool')], vectors=[(True,), (False,)], tag=f'cross:{tag}')))
+    import itertools
+    for a, b in itertools.permutations(names, 2):
+        add(f'ternary:{a}-{b}', f'x = {a}() if p else {b}()\ny = x')
+        add(f'fields:{a}-{b}', f'c = {a}()\nd = {b}()\nv = c.r\nw = d.r\ns = c.area()\nt = d.area()')
+        add(f'lists:{a}-{b}', f'cs = [{a}()]\nds = [{b}()]\nc0 = cs[0]\nd0 = ds[0]\nv = c0.r\nw = d0.r')
+        add(f'dict:{a}-{b}', "m = {'a': " + a + "()}\nn = {'b': " + b + "()}\nv = m['a'].r\nw = n['b'].r")
+    for a, b in itertools.permutations(['circle', 'label', 'plate'], 2):
+        add(f'factory:{a}-{b}', f'c = make_{a}()\nd = make_{b}()\nv = c.area()\nw = d.area()\nz = make_{a}() if p else make_{b}()')
+    per = 30
+    for i in range(0, len(fns), per):
+        yield pyprog.Program(f'cross{i // per}', prelude, fns[i:i + per], layer='cross', extra=extra)
+
+
 def worker(pj):
     return judge(pyprog.Program.from_json(pj))
 
 
 def run(ctx):
     from mc.props.c01 import attribute_minimal
-    progs = list(pyprog.programs(ctx.quick)) + list(numeric_chain_programs(ctx.quick)) + list(iterator_programs())
+    progs = list(pyprog.programs(ctx.quick)) + list(numeric_chain_programs(ctx.quick)) + list(iterator_programs()) + list(receiver_access_programs()) + list(cross_module_programs())
     ctx.log(f'{len(progs)} modules')
     from mc.props.c01 import warm_parent
     warm_parent()
@@ -385,7 +506,7 @@ def run(ctx):
         'evaluations': nodes,
         'distinct_nontrivial': reached,
         'programs': len(progs),
-        'rule': 'the PyProg scope of C01 (same bounds) + every 3-operand numeric chain over + - * / % with int and float operands (bare and right-parenthesised) + user-defined iterator / iterable classes in for and comprehensions; every node whose source span coincides with a load-context CPython expression; non-trivial = reached by at least one execution and carrying a data value (callables, classes, iterators and views are not judged)',
+        'rule': 'the PyProg scope of C01 (same bounds) + every 3-operand numeric chain over + - * / % with int and float operands (bare and right-parenthesised) + user-defined iterator / iterable classes in for and comprehensions + receiver x access product (list/dict reached plainly, through Optional, through a TypeAlias, as attribute, nested; indexed, sliced, iterated, copied, popped, aliased) + cross-module programs (classes at the same position of same-shaped modules used together: ternaries, fields, lists, dicts, factories, all ordered pairs); every node whose source span coincides with a load-context CPython expression; non-trivial = reached by at least one execution and carrying a data value (callables, classes, iterators and views are not judged)',
         'samples': [p.functions[0][1] for p in (progs[0], progs[len(progs) // 2], progs[-1])],
         'nodes_never_reached': unreached,
         'functions_rejected_by_transpiler_see_C01': rejected,
